@@ -193,7 +193,9 @@ class Line(LineData, Model):
 
         self.yh.v_str = 'u * (gh + 1j * bh)'
         self.yk.v_str = 'u * (gk + 1j * bk)'
-        self.yhk.v_str = 'u/((r+1e-8) + 1j*(x+1e-8))'
+        # the status `u` multiplies the equations; a constant evaluated at initialisation must not
+        # contain it, or a line closed by a Toggle during the simulation keeps a zero series admittance
+        self.yhk.v_str = '1/((r+1e-8) + 1j*(x+1e-8))'
 
         self.ghk.v_str = 're(yhk)'
         self.bhk.v_str = 'im(yhk)'
